@@ -1000,6 +1000,21 @@ impl FromStr for Duration {
             .parse()
             .map_err(|e| TemporalError::range().with_message(format!("{e}")))?;
 
+        // A duration string needs at least one component after the designator.
+        if s.trim_start_matches(['+', '-', '\u{2212}']).len() == 1 {
+            return Err(TemporalError::range().with_message("Duration string has no components."));
+        }
+        // The fraction of the last time unit has at most nine digits.
+        let fraction = match parse_record.time {
+            Some(TimeDurationRecord::Hours { fraction, .. })
+            | Some(TimeDurationRecord::Minutes { fraction, .. })
+            | Some(TimeDurationRecord::Seconds { fraction, .. }) => fraction,
+            None => None,
+        };
+        if fraction.is_some_and(|f| f.to_nanoseconds().is_none()) {
+            return Err(TemporalError::range().with_message("fractional part exceeds nine digits."));
+        }
+
         let (hours, minutes, seconds, millis, micros, nanos) = match parse_record.time {
             Some(TimeDurationRecord::Hours { hours, fraction }) => {
                 let unadjusted_fraction =
